@@ -127,7 +127,7 @@ func hostHandler(sc *scenario, host int) http.Handler {
 			conn.Close()
 			return
 		case "406enc": // an intermediary that refuses encoded requests
-			if a.ContentEnc == "" && a.AcceptEnc == "" {
+			if a.ContentEnc == "" {
 				code = "ok"
 			} else {
 				code = "406"
